@@ -30,6 +30,7 @@ COMP_OWNERS = {"Labware.__init__": "initial one-hot composition", "Labware.add":
 def run(ctx) -> None:
     ctx.guard("C05.owner", owner)
     ctx.guard("C05.local-write", local_write)
+    ctx.guard("C05.local-write", shared_arrays)
     ctx.guard("C05.mix-args", mix_args)
     ctx.guard("C05.mix-formula", mix_formula)
     ctx.guard("C05.div-zero", div_zero)
@@ -48,6 +49,33 @@ def run(ctx) -> None:
     ctx.guard("C05.default-name", default_name)
     ctx.guard("C05.default-name", trough_names)
     ctx.guard("C05.default-name", _name_buffers)
+
+
+def shared_arrays(ctx) -> None:
+    """Every component gets an array of its own: `dict.fromkeys(names, <array>)` and `[<array>] * n` bind one object to all
+    keys / positions, so a fraction written for one component shows up in all of them."""
+    rule = "C05.local-write"
+    lab = ctx.prog.require_class("Labware", rule)
+    hits = []
+    n = 0
+    funcs = list(lab.methods.values()) + [g for g in ctx.prog.all_functions() if g.module.relpath.endswith("liquidhandling/composition.py")]
+    for f in funcs:
+        ctx.rep.touch(f)
+        for sub in own_walk(f.node):
+            if isinstance(sub, ast.Call) and call_fname(sub) == "fromkeys" and len(sub.args) == 2:
+                n += 1
+                v = sub.args[1]
+                if isinstance(v, (ast.Call, ast.List, ast.Dict, ast.Set, ast.ListComp, ast.DictComp)) and not (isinstance(v, ast.Call) and call_fname(v) in ("int", "float", "str", "bool", "tuple", "frozenset")):
+                    hits.append((f, sub, f"`{stmt_key(sub)[:70]}` binds one object (`{show(v)[:30]}`) to every key"))
+            if isinstance(sub, ast.BinOp) and isinstance(sub.op, ast.Mult):
+                for a, b in ((sub.left, sub.right), (sub.right, sub.left)):
+                    if isinstance(a, ast.List) and len(a.elts) == 1 and isinstance(a.elts[0], ast.Call) and call_fname(a.elts[0]) in ("zeros", "zeros_like", "full", "empty", "ones", "array", "copy", "dict", "list"):
+                        n += 1
+                        hits.append((f, sub, f"`{stmt_key(sub)[:70]}` repeats one array object"))
+    for f, sub, msg in hits:
+        ctx.rep.refuted(rule, f"{f.qualname}/{stmt_key(sub)[:40]}", msg + ": the components share their fractions array - writing the fraction of one liquid changes the others", where=f.where(sub))
+    if not hits:
+        ctx.rep.holds(rule, "Labware/composition.py: no shared component arrays", f"{n} fromkeys / list-repetition site(s) examined, none shares a mutable object")
 
 
 def comp_forwarding(ctx) -> None:
@@ -134,6 +162,11 @@ def read_exact(ctx) -> None:
         n += 1
         gen = raw.generators[0]
         it = gen.iter
+        if isinstance(it, ast.Call) and isinstance(it.func, ast.Attribute) and isinstance(it.func.value, ast.Name) and it.func.value.id not in g.params:
+            # the mapping through a single-definition local (a helper's parameter bound by the expansion)
+            src, _at = fv.def_expr(it.func.value, at if at is not None else rn.id)
+            if isinstance(src, ast.Attribute):
+                it = ast.Call(func=ast.Attribute(value=src, attr=it.func.attr, ctx=ast.Load()), args=list(it.args), keywords=list(it.keywords))
         ok_it = isinstance(it, ast.Call) and isinstance(it.func, ast.Attribute) and it.func.attr == "items" and (
             attr_of_name(it.func.value, selfn, "composition") or attr_of_name(it.func.value, selfn, "_composition"))
         tgt = gen.target
